@@ -318,6 +318,21 @@ def gen_cases(ctx, quick):
                 add("euclid-pts-scaled", "kpca", "dense", "pts", pts, N, D, d, sp.is_pow2(N), rank)
                 add("euclid-pts-scaled", "kpca", "rand", "pts", pts, N, D, d, False, rank)
             add("euclid-pts-scaled", "isomap", "dense", "pts", pts, N, D, rank, False, rank)
+        # 4c. anisotropic exact-rank data (strips / slabs): rank <= d, retained eigenvalues differing by 10^2 … 10^7
+        #     (axis extents shrunk by powers of two, data stay exact): both solvers must find ALL retained directions,
+        #     judged by the certificate against the model's matrix and by distance reproduction
+        N = r.range(6, 14)
+        rank = r.range(2, 3)
+        D = r.range(rank, 4)
+        steps = [r.range(4, 12) for _ in range(rank)]
+        if rank == 3:
+            steps = [r.range(3, 6), r.range(3, 6)]
+        pts = sp.anisotropic_points(r, N, D, rank, steps)
+        for d in sorted({rank, min(rank + 1, N - 1)}):
+            for solver in ("rand", "dense"):
+                add("anisotropic-exact-rank", "mds", solver, "pts", pts, N, D, d, False, rank)
+                add("anisotropic-exact-rank", "kpca", solver, "pts", pts, N, D, d, False, rank)
+        add("anisotropic-exact-rank", "isomap", "dense", "pts", pts, N, D, rank, False, rank)
         # 5. PSD kernels of every rank (precomputed), N = 2^m exact, other N approx
         N = r.choice(pow2) if r.chance(1, 2) else big_or_small(2)
         rank = r.range(1, N)
@@ -375,14 +390,17 @@ def correspond(ctx):
     ctx.log("%d generated cases" % len(cases))
     run_all(ctx, binary, cases)
     ctx.extra["failure_signature_counts"] = dict(ctx._c05_seen)
-    ctx.cov["rule"] = ("public-API runs of MDS / Kernel PCA / Isomap(k=N-1) on 7 input families (random symmetric integer and "
+    ctx.cov["rule"] = ("public-API runs of MDS / Kernel PCA / Isomap(k=N-1) on 8 input families (random symmetric integer and "
                        "dyadic distance matrices, integer L1 metrics, Euclidean integer points of every rank, the same at "
-                       "magnitudes 2^-40 .. 2^30, PSD kernels of every rank, linear kernels), N <= %d, d in {1, rank, rank+1, N-1, random}, dense solver everywhere and the "
+                       "magnitudes 2^-40 .. 2^30, anisotropic exact-rank strips / slabs with retained eigenvalue ratios 10^2 .. 10^7, PSD kernels of every rank, linear kernels), N <= %d, d in {1, rank, rank+1, N-1, random}, dense solver everywhere and the "
                        "randomized solver on inputs of rank <= d; in about half of the cases the library is handed a shuffled subset of a "
                        "larger id space (decoy samples in between) instead of the identity range; each run = one trace (hook matrix + solver output + embedding) "
                        "judged in exact rational arithmetic by model_c05; non-trivial = N >= 3; distinct by case text"
                        % (32 if quick else 64))
     ctx.assumptions += [
+        "the eigen-certificate of the Randomized solver's (V, lambda) uses the relative tolerance 2^-20 instead of 2^-30: its "
+        "single Gram-Schmidt pass loses (lambda_max/lambda_min)*2^-53 of orthogonality, up to 2^-28 on the anisotropic "
+        "exact-rank families (retained eigenvalue ratios up to 2^25); embedding-level checks stay at 2^-30 / 2^-40",
         "harness compiled at -O0 -g1 (ASan+UBSan on) instead of -O1 -g: the all-methods translation unit needs 2-3 min and "
         "several GB otherwise",
         "eigensolver (Eigen SelfAdjointEigenSolver / randomized range finder) enters the theorems as a contract "
